@@ -28,11 +28,12 @@ import (
 
 var zooCount = map[fix.KeyKind]int{fix.KP256: 8, fix.KP224: 5, fix.KP384: 5, fix.KP521: 3, fix.KSM2: 5, fix.KEd25519: 5, fix.KEth: 6}
 
-// weights of the kinds when a key is drawn (P-521 verification costs ~7 ms, so it is rare).
+// weights of the kinds when a key is drawn (P-521 verification costs ~7 ms and decoding a compressed P-224 key
+// ~10 ms inside the node's own script parser, so these are rarer).
 var kindWeights = []struct {
 	k fix.KeyKind
 	w int
-}{{fix.KP256, 6}, {fix.KEth, 4}, {fix.KP224, 2}, {fix.KP384, 2}, {fix.KSM2, 3}, {fix.KEd25519, 3}, {fix.KP521, 1}}
+}{{fix.KP256, 6}, {fix.KEth, 4}, {fix.KP224, 1}, {fix.KP384, 2}, {fix.KSM2, 3}, {fix.KEd25519, 3}, {fix.KP521, 1}}
 
 var kindDraw []fix.KeyKind
 
@@ -44,14 +45,40 @@ func init() {
 	}
 }
 
+// uniR draws an (almost exactly) uniform integer in [lo, hi]. rapid.IntRange is deliberately biased towards
+// small values (geometric bit length), which starves classes when it is used to pick alternatives or offsets.
+func uniR(t *rapid.T, lo, hi int, label string) int {
+	if hi < lo {
+		panic(fmt.Sprintf("harness: empty range [%d,%d] for %s", lo, hi, label))
+	}
+	n := hi - lo + 1
+	if n == 1 {
+		return lo
+	}
+	k := 4
+	for x := n - 1; x > 0; x >>= 1 {
+		k++
+	}
+	v := 0
+	for _, b := range rapid.SliceOfN(rapid.Bool(), k, k).Draw(t, label) {
+		v <<= 1
+		if b {
+			v |= 1
+		}
+	}
+	return lo + v%n
+}
+
+func pick[E any](t *rapid.T, from []E, label string) E { return from[uniR(t, 0, len(from)-1, label)] }
+
 func keyName(z *fix.ZooKey) string { return fmt.Sprintf("%s#%d", z.Kind, z.Idx) }
 
 func canonKey(z *fix.ZooKey) []byte { return keypair.SerializePublicKey(z.PublicKey) }
 
 // drawKey draws a zoo key that is not in used (linear probing keeps the draw deterministic).
 func drawKey(t *rapid.T, used map[string]bool, label string) *fix.ZooKey {
-	k := rapid.SampledFrom(kindDraw).Draw(t, label+".kind")
-	i := rapid.IntRange(0, zooCount[k]-1).Draw(t, label+".idx")
+	k := pick(t, kindDraw, label+".kind")
+	i := uniR(t, 0, zooCount[k]-1, label+".idx")
 	for tries := 0; tries < 64; tries++ {
 		z := fix.Key(k, i)
 		if used == nil || !used[keyName(z)] {
@@ -500,16 +527,16 @@ func genBody(t *rapid.T) bodySpec {
 		GasPrice: rapid.OneOf(rapid.Uint64Range(0, 5000), rapid.Uint64()).Draw(t, "gasPrice"),
 		GasLimit: rapid.OneOf(rapid.Uint64Range(20000, 100000), rapid.Uint64()).Draw(t, "gasLimit"),
 	}
-	codeLen := rapid.OneOf(rapid.IntRange(0, 40), rapid.IntRange(0, 40), rapid.IntRange(250, 300)).Draw(t, "codeLen")
+	codeLen := pick(t, []int{0, 1, 3, 8, 20, 40, 252, 253, 300}, "codeLen")
 	code := rapid.SliceOfN(rapid.Byte(), codeLen, codeLen).Draw(t, "code")
-	switch rapid.IntRange(0, 5).Draw(t, "txType") {
+	switch uniR(t, 0, 5, "txType") {
 	case 0:
 		b.TxType = 0xd2 // InvokeWasm
 		b.Payload = appendVarBytes(nil, code)
 	case 1: // Deploy (NeoVM flags 0 or 1; never wasm: that would need a valid module)
 		b.TxType = 0xd0
 		p := appendVarBytes(nil, code)
-		p = append(p, byte(rapid.IntRange(0, 1).Draw(t, "vmFlags")))
+		p = append(p, byte(uniR(t, 0, 1, "vmFlags")))
 		for _, f := range []string{"name", "version", "author", "email", "desc"} {
 			p = appendVarBytes(p, []byte(rapid.StringOfN(rapid.RuneFrom([]rune("abcXYZ 019_-")), 0, 12, -1).Draw(t, f)))
 		}
@@ -530,25 +557,25 @@ func genSet(t *rapid.T, label string, maxN int) *setSpec {
 		return &setSpec{Keys: []keyItem{{Z: z}}, M: 1, Sigs: []sigItem{{Signer: z}}}
 	}
 	var n int
-	switch w := rapid.IntRange(0, 19).Draw(t, label+".nclass"); {
+	switch w := uniR(t, 0, 19, label+".nclass"); {
 	case w < 12:
-		n = rapid.IntRange(2, 4).Draw(t, label+".n")
+		n = uniR(t, 2, 4, label+".n")
 	case w < 17:
-		n = rapid.IntRange(5, 8).Draw(t, label+".n")
+		n = uniR(t, 5, 8, label+".n")
 	default:
-		n = rapid.IntRange(9, 16).Draw(t, label+".n")
+		n = uniR(t, 9, 16, label+".n")
 	}
 	if n > maxN {
 		n = maxN
 	}
 	var m int
-	switch rapid.IntRange(0, 4).Draw(t, label+".mclass") {
+	switch uniR(t, 0, 4, label+".mclass") {
 	case 0:
 		m = 1
 	case 1:
 		m = n
 	default:
-		m = rapid.IntRange(1, n).Draw(t, label+".m")
+		m = uniR(t, 1, n, label+".m")
 	}
 	s := &setSpec{Multi: true, M: m}
 	var zs []*fix.ZooKey
@@ -581,7 +608,7 @@ func sortZoo(zs []*fix.ZooKey) []*fix.ZooKey {
 }
 
 func genNSets(t *rapid.T) int {
-	switch w := rapid.IntRange(0, 99).Draw(t, "nsetsClass"); {
+	switch w := uniR(t, 0, 99, "nsetsClass"); {
 	case w < 35:
 		return 1
 	case w < 55:
@@ -589,9 +616,9 @@ func genNSets(t *rapid.T) int {
 	case w < 68:
 		return 3
 	case w < 92:
-		return rapid.IntRange(4, 8).Draw(t, "nsets")
+		return uniR(t, 4, 8, "nsets")
 	default:
-		return rapid.IntRange(9, 16).Draw(t, "nsets")
+		return uniR(t, 9, 16, "nsets")
 	}
 }
 
@@ -603,14 +630,14 @@ func genValidTx(t *rapid.T) *txSpec {
 	maxN := 16
 	if ns > 3 {
 		maxN = 5
-		if rapid.IntRange(0, 9).Draw(t, "bigInMany") == 0 {
+		if uniR(t, 0, 9, "bigInMany") == 0 {
 			maxN = 16
 		}
 	}
 	for i := 0; i < ns; i++ {
 		tx.Sets = append(tx.Sets, genSet(t, fmt.Sprintf("set%d", i), maxN))
 	}
-	pi := rapid.IntRange(0, ns-1).Draw(t, "payerSet")
+	pi := uniR(t, 0, ns-1, "payerSet")
 	tx.Payer = specSetAddress(tx.Sets[pi])
 	tx.Note = fmt.Sprintf("set%d", pi)
 	tx.sign()
